@@ -20,6 +20,9 @@ pub enum Content {
     /// a random period repeated
     Periodic { period: usize, len: usize, seed: u64 },
     Concat(Vec<Content>),
+    /// `base` with `n` short copies (`mlen` bytes each) of earlier material planted at later, non-overlapping places:
+    /// minimal-length matches that cost the sequence coder about as much as they save
+    Planted { base: Box<Content>, n: usize, mlen: usize, seed: u64 },
 }
 
 impl Content {
@@ -33,6 +36,7 @@ impl Content {
             | Content::Repeats { len, .. }
             | Content::Periodic { len, .. } => *len,
             Content::Concat(v) => v.iter().map(|c| c.len()).sum(),
+            Content::Planted { base, .. } => base.len(),
         }
     }
 
@@ -128,6 +132,26 @@ impl Content {
                     c.gen_into(out);
                 }
             }
+            Content::Planted { base, n, mlen, seed } => {
+                let start = out.len();
+                base.gen_into(out);
+                let len = out.len() - start;
+                let m = (*mlen).max(1);
+                if len >= 4 * m && *n > 0 {
+                    // destinations: evenly spread slots in the second half; sources: seeded places in the first half
+                    let mut r = Rng::new(*seed);
+                    let half = len / 2;
+                    let slots = (len - half) / (2 * m);
+                    let n = (*n).min(slots);
+                    for i in 0..n {
+                        let dst = start + half + (i * slots / n.max(1)) * 2 * m;
+                        let src = start + r.usize_below(half - m);
+                        for j in 0..m {
+                            out[dst + j] = out[src + j];
+                        }
+                    }
+                }
+            }
         }
     }
 
@@ -164,7 +188,7 @@ impl Content {
             Content::Skewed { seed, skew, .. } => Content::Skewed { len: nl, seed: *seed, skew: *skew },
             Content::Repeats { seed, unit, far, .. } => Content::Repeats { len: nl, seed: *seed, unit: *unit, far: *far },
             Content::Periodic { period, seed, .. } => Content::Periodic { period: *period, len: nl, seed: *seed },
-            Content::Concat(_) => return None,
+            Content::Concat(_) | Content::Planted { .. } => return None,
         })
     }
 }
